@@ -804,4 +804,51 @@ Section Sim.
             -- apply Hget. assumption.
     Qed.
   End WithCb.
+
+  Notation EVAL := (eval W p typeof tbl callv binop getattr getitem truthy fmt ugl mself).
+  Notation EXEC := (exec W p typeof tbl callv binop getattr getitem truthy fmt ugl mself).
+
+  (* ---- every fuel level: same fuel on both sides *)
+  Theorem eval_sim : forall n rho b k s s', dom p b = true -> srel s s' -> FIXED s' rho ->
+    rsim vrel (EVAL false n rho b s) (EVAL true n rho (fst (rw p k b)) s').
+  Proof.
+    induction n; intros rho b k s s' Hd Hs Ht; simpl.
+    - refine (proj1 (sim_all (fun _ _ _ => None) (fun _ _ _ => None) _ _) b Hd k rho s s' Hs Ht).
+      + intros. exact I.
+      + intros; discriminate.
+    - refine (proj1 (sim_all (EVAL false n) (EVAL true n) _ _) b Hd k rho s s' Hs Ht).
+      + intros. apply IHn; auto.
+      + intros rho0 b0 s0 r0 s1 Ht0 H0. eapply FP_weaken; [eapply eval_fp; eauto | lia | intros; discriminate].
+  Qed.
+
+  Lemma eval_fixed : forall n rho e s r s1, FIXED s rho -> EVAL true n rho e s = Some (r, s1) -> FIXED s1 rho.
+  Proof.
+    intros n rho e s r s1 Ht H. eapply tgt_fixed_ext; [|exact Ht].
+    apply (eval_fp W p typeof tbl callv binop getattr getitem truthy fmt ugl mself true n rho e s r s1 Ht H).
+  Qed.
+
+  (* ---- straight-line bodies *)
+  Definition ores (a b : option val) : Prop := RewriteRel.orel p a b.
+
+  Theorem exec_sim : forall n rho b k s s', forallb (dom_stmt p) b = true -> srel s s' -> FIXED s' rho ->
+    rsim ores (EXEC false n rho b s) (EXEC true n rho (fst (rw_body p k b)) s').
+  Proof.
+    intros n rho b. induction b as [|st b IH]; intros k s s' Hd Hs Ht.
+    - simpl. split; simpl; auto.
+    - simpl in Hd. apply andb_true_iff in Hd. destruct Hd as [Hst Hb].
+      cbn [rw_body]. destruct st as [e|x e|e]; cbn [rw_stmt]; dlet; nrm; cbn [fst snd]; cbn [exec].
+      + unfold dom_stmt, in_domain in Hst. bsplit.
+        eapply rsim_bind; [apply eval_sim; auto|]. intros v v' s1 s1' E E' Hv Hs1.
+        apply IH; auto. eapply eval_fixed; eauto.
+      + unfold dom_stmt, in_domain in Hst. bsplit.
+        pose proof (binder_not_special x H) as Hx.
+        destruct Hx as (Hsp & Htm & ->).
+        eapply rsim_bind; [apply eval_sim; auto|]. intros v v' s1 s1' E E' Hv Hs1.
+        apply IH; auto.
+        * apply assign_rel; auto.
+        * eapply tgt_fixed_ext; [apply (FP_assign W 0 rho s1' x v')|]; eapply eval_fixed; eauto.
+      + unfold dom_stmt, in_domain in Hst. bsplit.
+        eapply rsim_bind; [apply eval_sim; auto|]. intros v v' s1 s1' E E' Hv Hs1.
+        apply rsim_ret; auto.
+  Qed.
 End Sim.
